@@ -21,7 +21,7 @@ RULE = (
     "sixth a below-threshold unit of a high-turnout bootstrap election (x40). Oracle on canonicalised tables: every other unit row bit-identical (incl. category); "
     "every aggregate row of a group not containing the unit bit-identical; in groups containing it `reporting` is "
     "unchanged and, for vote counts, pred changes exactly by the change of the unit's own pred (nonparametric: lower/"
-    "upper likewise). Historical clause: get_historical_evaluation driven offline from a temp cwd, run twice with the "
+    "upper likewise). A further part runs the same oracle on county-level bootstrap elections with the margin extrapolation on (generated version histories; the perturbation moves votes between the parties of an outstanding county that is far along). Historical clause: get_historical_evaluation driven offline from a temp cwd, run twice with the "
     "historical results of not-yet-reporting units changed: estimates tables bit-identical and the hidden units carry 0 "
     "counted votes. Non-trivial: both runs complete, the perturbed unit's own row changed, >=1 other nonreporting unit. "
     "Distinct = (estimator, office, kind of perturbed unit, replacement, outliers on/off, fe/features on/off)."
@@ -35,8 +35,8 @@ FLOOR = {"quick": 20, "thorough": 120}
 
 def parts(tier):
     if tier == "quick":
-        return [{"name": "pairs", "n": 384}, {"name": "historical", "n": 64}]
-    return [{"name": "pairs", "n": 4000}, {"name": "historical", "n": 480}]
+        return [{"name": "pairs", "n": 384}, {"name": "extrap", "n": 64}, {"name": "historical", "n": 64}]
+    return [{"name": "pairs", "n": 4000}, {"name": "extrap", "n": 600}, {"name": "historical", "n": 480}]
 
 
 KINDS = {
@@ -145,8 +145,39 @@ def _strategy(draw):
 STRATEGY = _strategy()
 
 
+@gen.st.composite
+def _extrap_strategy(draw):
+    """Pairs on county-level bootstrap elections run with the margin extrapolation (generated version histories, see
+    C06's `extrap` part): the perturbed unit is an outstanding county, preferably one far along whose earlier versions
+    were observed near another outstanding county's expected-vote level; `shift` moves votes between the parties and
+    keeps the turnout, so the county's own history stays regular."""
+    from vf.props.c06 import _extrap_strategy as base
+
+    st = gen.st
+    case = draw(base())
+    if "unit" not in case["req"]["aggregates"]:
+        case["req"]["aggregates"] = case["req"]["aggregates"] + ["unit"]
+    below = [u for u in case["units"] if u["status"] in (gen.N, gen.NH) and u.get("feed") is not None and u["feed"]["pev"] > 0]
+    if not below:
+        below = [u for u in case["units"] if u.get("feed") is not None and u["feed"]["pev"] < 100]
+    with_versions = {v["id"] for v in case["versions"]}
+    pref = [u for u in below if u["id"] in with_versions and u["feed"]["pev"] >= 90] or below
+    if not pref:
+        pref = [u for u in case["units"] if u.get("feed") is not None]
+    u = pref[draw(st.integers(0, len(pref) - 1))]
+    case["perturb"] = {"kind": "below_threshold", "id": u["id"], "repl": draw(st.sampled_from(["shift", "shift", "+1", "zero"]))}
+    return case
+
+
+EXTRAP = _extrap_strategy()
+
+
 def apply_repl(f, repl):
     g = dict(f)
+    if repl == "shift":
+        k = int(0.3 * f["rg"])
+        g["rd"], g["rg"] = f["rd"] + k, f["rg"] - k
+        return g
     for k in ("rd", "rg", "ro"):
         v = f[k]
         g[k] = {"zero": 0, "x0.1": int(v * 0.1), "x40": int(v * 40), "+1": v + 1}[repl]
@@ -349,6 +380,8 @@ def check_hist(case, ctx):
 def run_part(name, seed, n, tier, ctx, si, sc):
     if name == "pairs":
         hyp_run(STRATEGY, lambda case: check_case(case, ctx), seed, n, tier)
+    elif name == "extrap":
+        hyp_run(EXTRAP, lambda case: check_case(case, ctx), seed, n, tier)
     else:
         hyp_run(_hist_strategy(), lambda case: check_hist(case, ctx), seed, n, tier)
 
